@@ -18,7 +18,7 @@ from vf.engine import loader, proxies
 from vf.engine.paths import cur, explore, Undecided, PathEnd
 from vf.engine.proxies import SymBool, SymInt
 from vf.contracts import mixins as M
-from claripy.errors import UnsatError, ClaripyValueError, BackendError
+from claripy.errors import UnsatError, ClaripyValueError, BackendError, ClaripySolverInterruptError
 
 FID_CONCRETE = "rtc:concrete/answers-on-unsat"
 
@@ -241,15 +241,18 @@ def _values(r):
     return [z3.Extract(M.WV - 1, 0, proxies._bv(x)) for x in r]
 
 
-def ob_layer(mixin, method, tier="quick"):
+def ob_layer(mixin, method, tier="quick", faults=False):
+    """faults=True (C17): the stack below may give up (ClaripySolverInterruptError) at every query.  The layer must then propagate the error or
+    still answer per specification, and on the exceptional exit the model set, the constraint list and the layer's own state must be as
+    consistent as on a normal one - the next query on the same solver object is answered from them."""
     M.UM = 3
     M.WV = 2
-    M.FAULTS["on"] = False
+    M.FAULTS["on"] = bool(faults)
     Mx = load(mixin)
     H = type("HL", (Mx, _FrontendCV, LSpec) if mixin == "EagerResolutionMixin" else (Mx, LSpec), {})
     proxies.set_iw(12)
     concrete_in = mixin in ("ConstraintFilterMixin",)
-    label = f"{mixin}.{method}"
+    label = f"{mixin}.{method}" + ("[fault]" if faults else "")
 
     def body(c):
         M.CH.n = 0
@@ -270,6 +273,7 @@ def ob_layer(mixin, method, tier="quick"):
             # the recorded finding: a constant expression is answered without looking at the constraints
             c.known(FID_CONCRETE, GX == 0)
         unchanged = True
+        interrupted = False
         try:
             if method in ("min", "max"):
                 signed = c.choose([True, True], "signed") == 1
@@ -394,21 +398,47 @@ def ob_layer(mixin, method, tier="quick"):
                     c.check(label + "/none-allowed", kexp != 2, "a Python number has a concrete value")
         except UnsatError:
             c.check(label + "/unsat-error-only-if-unsat", GX == 0, "UnsatError raised although a model exists")
+        except ClaripySolverInterruptError:
+            c.n_vcs += 1
+            if not c.ghost.get("stack_raised"):
+                c.fail(label + "/interrupt-only-if-the-backend-gave-up", "ClaripySolverInterruptError raised although no backend call gave up")
+                return "raised"
+            interrupted = True
         except (PathEnd, Undecided):
             raise
         except Exception as ex:  # noqa
             import traceback
             c.fail(label + "/raises", f"{type(ex).__name__}: {ex} " + traceback.format_exc()[-300:], kind="raises")
             return "raised"
+        if interrupted and method == "_add":
+            # an interrupted add: whatever reached the constraint list must be accounted for in the model set and the layer's bookkeeping
+            m = _all()
+            for h in s.constraints:
+                m = m & h.mask
+            c.check(label + "/constraint-list-equivalent", m == U.G, "after an interrupted _add the constraint list no longer describes the model set")
+            if mixin == "ConstraintDeduplicatorMixin":
+                _dedup_inv(c, s, label, getattr(s, "pool", []))
+            return method + ":interrupted"
         if unchanged:
             c.check(label + "/model-set-unchanged", U.G == G0, "a query changed the model set of the solver (a helper constraint that is not implied was added)")
             m = _all()
             for h in s.constraints:
                 m = m & h.mask
             c.check(label + "/constraint-list-equivalent", m == U.G, "the constraint list no longer describes the model set")
-        return method
+        return method + (":interrupted" if interrupted else ":answered-despite-fault" if c.ghost.get("stack_raised") else "")
 
     return explore(body, {"budget_s": 300, "max_depth": 3000, "max_failures": 3, "timeout_ms": 20000, "max_paths": 500000})
+
+
+FAULT_METHODS = {"ConstraintExpansionMixin": ["eval", "min", "max", "solution"], "SimplifyHelperMixin": ["eval", "batch_eval", "min", "max"],
+                 "ConstraintFilterMixin": ["satisfiable", "eval", "batch_eval", "min", "max", "solution"],
+                 "ConcreteHandlerMixin": ["eval", "batch_eval", "min", "max", "solution"]}
+
+
+def fault_tasks(tier):
+    from vf.common import task
+    return [task("vf.contracts.layers", "ob_layer", f"layer.{mixin}.{m}[fault]/consistent-after-the-backend-gave-up", ["C17"], mixin=mixin, method=m, tier=tier, faults=True)
+            for mixin, ms in FAULT_METHODS.items() for m in ms]
 
 
 def all_tasks(tier, props=("C11",), only=None):
